@@ -2,7 +2,13 @@
 
    In the model a network IS its list of update functions on states, so logically equivalent formulas are
    extensionally equal networks (net_equiv).  Polarity flips act on nets, states and spaces.
-   PARTIAL: variable reordering and name sanitisation are decided by the metamorphic run on the real code.
+   Reordering the declarations is a permutation acting on nets, states and spaces (Perm.v): dynamics, trap spaces,
+   percolation, maximal / minimal trap spaces, attractors and the whole fully expanded diagram are equivariant
+   (perm_hierarchy).  Names.v models sanitize_network_names on code-point lists: total, solver-safe, distinct,
+   position-preserving (so the dynamics is untouched), idempotent; place names round-trip.  dollar_test_unsafe is the
+   formal record of the repaired defect D16 (a name ending in a newline passed the `$` test).  The model's output is
+   compared with the code's on every run.  PARTIAL: the text formats (bnet / aeon / sbml) are AEON's parsers and are
+   covered by the metamorphic run only.
 
    This file contains only restatements closed by `exact` (statements produced by Coq's own
    `Check` of the library lemma) plus non-vacuity Examples, each followed by Print Assumptions. *)
@@ -10,7 +16,8 @@ From Coq Require Import List Bool Arith NArith Lia Relations Permutation.
 Import ListNotations.
 From BB Require Import BN Brute SpaceFacts TrapFacts PercolateFacts AttractorFacts Diagram Invariants Checks Filter
   Strict PetriNet Control Meta FilterFacts PetriNetFacts TrappistFacts DiagramStruct DiagramSem1 DiagramCache
-  DiagramDepth DiagramComplete Termination ControlFacts MetaFacts Candidates StrictFacts MinExpandFacts CandidatesFacts SymbolicTest SymbolicTestFacts Signed ReductionFacts ControlFacts2 Main Blocks BlocksFacts ObsFacts OwnerFacts CandidatesTerm.
+  DiagramDepth DiagramComplete Termination ControlFacts MetaFacts Candidates StrictFacts MinExpandFacts CandidatesFacts SymbolicTest SymbolicTestFacts Signed ReductionFacts ControlFacts2 Main Blocks BlocksFacts ObsFacts OwnerFacts CandidatesTerm
+  PartialOwner BlockMath BlockComplete ASeeds ASeedsFacts LogChecks SkipRule SkipRuleFacts Names NamesFacts Perm PermFacts.
 
 Theorem C17_equiv_trap_space : forall (N M : net) (S : space), net_equiv N M -> trap_space N S <-> trap_space M S.
 Proof. exact equiv_trap_space. Qed.
@@ -46,6 +53,85 @@ Proof. exact flip_attractor_weak. Qed.
 Theorem C17_flip_trans : forall (fl : list bool) (N : net) (s t : list bool), length fl = nvars N -> length s = nvars N -> length t = nvars N -> trans (flip_net fl N) (flip_state fl s) (flip_state fl t) <-> trans N s t.
 Proof. exact flip_trans_weak. Qed.
 
+(* reordering: the asynchronous dynamics *)
+Theorem C17_perm_trans : forall (n : nat) (p : list nat) (N : net) (s t : list bool), is_perm n p -> nvars N = n -> length s = n -> length t = n -> trans N s t <-> trans (perm_net p N) (perm_state p s) (perm_state p t).
+Proof. exact perm_trans. Qed.
+
+Theorem C17_perm_reach : forall (n : nat) (p : list nat) (N : net) (s t : list bool), is_perm n p -> nvars N = n -> length s = n -> length t = n -> reach N s t <-> reach (perm_net p N) (perm_state p s) (perm_state p t).
+Proof. exact perm_reach. Qed.
+
+(* attractors (sets of well-formed states) *)
+Theorem C17_perm_attractor : forall (n : nat) (p : list nat) (N : net) (A : state -> Prop), is_perm n p -> nvars N = n -> (forall s : state, A s -> length s = n) -> attractor N A <-> attractor (perm_net p N) (perm_set p A).
+Proof. exact perm_attractor_weak. Qed.
+
+Theorem C17_perm_trap_space : forall (n : nat) (p : list nat) (N : net) (S : list (option bool)), is_perm n p -> nvars N = n -> length S = n -> trap_space N S <-> trap_space (perm_net p N) (perm_space p S).
+Proof. exact perm_trap_space. Qed.
+
+Theorem C17_perm_percolate : forall (n : nat) (p : list nat) (N : net) (S : list (option bool)), is_perm n p -> nvars N = n -> length S = n -> percolate_b (perm_net p N) (perm_space p S) = perm_space p (percolate_b N S).
+Proof. exact perm_percolate. Qed.
+
+Theorem C17_perm_min_trap : forall (n : nat) (p : list nat) (N : net) (M : list (option bool)), is_perm n p -> nvars N = n -> length M = n -> min_trap N M <-> min_trap (perm_net p N) (perm_space p M).
+Proof. exact perm_min_trap. Qed.
+
+Theorem C17_perm_max_trap_in : forall (n : nat) (p : list nat) (N : net) (S M : list (option bool)), is_perm n p -> nvars N = n -> length S = n -> length M = n -> max_trap_in N S M <-> max_trap_in (perm_net p N) (perm_space p S) (perm_space p M).
+Proof. exact perm_max_trap_in. Qed.
+
+(* the solver model returns the permuted maximal trap spaces *)
+Theorem C17_perm_max_traps : forall (n : nat) (p : list nat) (N : net) (S : list (option bool)) (srcs : list nat), is_perm n p -> nvars N = n -> length S = n -> (forall v : nat, In v srcs -> v < n) -> Permutation (max_traps_b (perm_net p N) (perm_space p S) (map (fun j : nat => index_of j p) srcs)) (map (perm_space p) (max_traps_b N S srcs)).
+Proof. exact perm_max_traps_b. Qed.
+
+Theorem C17_perm_min_traps : forall (n : nat) (p : list nat) (N : net) (S : list (option bool)), is_perm n p -> nvars N = n -> length S = n -> Permutation (min_traps_b (perm_net p N) (perm_space p S)) (map (perm_space p) (min_traps_b N S)).
+Proof. exact perm_min_traps_b. Qed.
+
+Theorem C17_perm_sources : forall (n : nat) (p : list nat) (N : net) (i : nat), is_perm n p -> nvars N = n -> i < n -> In i (sources_b (perm_net p N)) <-> In (nth i p 0) (sources_b N).
+Proof. exact perm_sources. Qed.
+
+(* the fully expanded diagrams of a network and of its reordering have the same node spaces and edges up to the permutation *)
+Theorem C17_perm_hierarchy : forall (n : nat) (p : list nat) (N : net) (d d' : sd), is_perm n p -> nvars N = n -> Hierarchy N d -> Rooted d -> Hierarchy (perm_net p N) d' -> Rooted d' -> (forall X : list (option bool), length X = n -> In X (spaces d) <-> In (perm_space p X) (spaces d')) /\ (forall (X Y : space) (ms : list space), edge_view d X Y ms -> edge_view d' (perm_space p X) (perm_space p Y) (map (perm_space p) ms)).
+Proof. exact perm_hierarchy. Qed.
+
+(* name sanitisation *)
+Theorem C17_sanitize_total : forall names : list name, exists out : list name, sanitize names = Some out.
+Proof. exact sanitize_total. Qed.
+
+Theorem C17_sanitize_valid : forall names out : list name, sanitize names = Some out -> forall s : name, In s out -> valid_name s = true.
+Proof. exact sanitize_valid. Qed.
+
+Theorem C17_sanitize_distinct : forall names out : list name, NoDup names -> sanitize names = Some out -> NoDup out.
+Proof. exact sanitize_distinct. Qed.
+
+Theorem C17_sanitize_length : forall names out : list name, sanitize names = Some out -> length out = length names.
+Proof. exact sanitize_length. Qed.
+
+Theorem C17_sanitize_keeps_valid : forall (names out : list name) (i : nat), sanitize names = Some out -> i < length names -> valid_name (nth i names []) = true -> nth i out [] = nth i names [].
+Proof. exact sanitize_keeps_valid. Qed.
+
+Theorem C17_sanitize_renamed_shape : forall (names out : list name) (i : nat), sanitize names = Some out -> i < length names -> valid_name (nth i names []) = false -> exists k : nat, nth i out [] = repeat 95%N k ++ subst_name (nth i names []).
+Proof. exact sanitize_renamed_shape. Qed.
+
+Theorem C17_sanitize_idempotent : forall names out : list name, sanitize names = Some out -> sanitize out = Some out.
+Proof. exact sanitize_idempotent. Qed.
+
+Theorem C17_check_only_spec : forall names : list name, check_only_ok names = true <-> sanitize names = Some names /\ (forall s : name, In s names -> valid_name s = true).
+Proof. exact check_only_spec. Qed.
+
+Theorem C17_place_round_trip : forall (v : name) (b : bool), place_to_variable (place_name v b) = Some (v, b).
+Proof. exact place_round_trip. Qed.
+
+Theorem C17_place_name_inj : forall (v : name) (b : bool) (w : name) (c : bool), place_name v b = place_name w c -> v = w /\ b = c.
+Proof. exact place_name_inj. Qed.
+
+(* defect D16, formally *)
+Theorem C17_dollar_test_unsafe : exists (names out : list name) (s : name), NoDup names /\ sanitize_with valid_name_dollar names = Some out /\ In s out /\ valid_name s = false.
+Proof. exact dollar_test_unsafe. Qed.
+
+Example C17_example_perm : is_perm 3 [2; 0; 1] /\ perm_state [2; 0; 1] [true; false; false] = [false; true; false] /\
+  perm_state (inv_perm [2; 0; 1]) [false; true; false] = [true; false; false].
+Proof. split; [|split; reflexivity]. unfold is_perm. simpl. apply (Permutation_cons_app [0; 1] [] 2). simpl. apply Permutation_refl. Qed.
+(* "a<newline>", "a{", "a_"  ->  "_a_", "__a_", "a_" *)
+Example C17_example_sanitize : sanitize [[97; 10]; [97; 123]; [97; 95]]%N = Some [[95; 97; 95]; [95; 95; 97; 95]; [97; 95]]%N.
+Proof. vm_compute. reflexivity. Qed.
+
 Print Assumptions C17_equiv_trap_space.
 Print Assumptions C17_equiv_percolate.
 Print Assumptions C17_equiv_max_traps.
@@ -57,3 +143,25 @@ Print Assumptions C17_flip_min_trap.
 Print Assumptions C17_flip_max_trap.
 Print Assumptions C17_flip_attractor.
 Print Assumptions C17_flip_trans.
+Print Assumptions C17_perm_trans.
+Print Assumptions C17_perm_reach.
+Print Assumptions C17_perm_attractor.
+Print Assumptions C17_perm_trap_space.
+Print Assumptions C17_perm_percolate.
+Print Assumptions C17_perm_min_trap.
+Print Assumptions C17_perm_max_trap_in.
+Print Assumptions C17_perm_max_traps.
+Print Assumptions C17_perm_min_traps.
+Print Assumptions C17_perm_sources.
+Print Assumptions C17_perm_hierarchy.
+Print Assumptions C17_sanitize_total.
+Print Assumptions C17_sanitize_valid.
+Print Assumptions C17_sanitize_distinct.
+Print Assumptions C17_sanitize_length.
+Print Assumptions C17_sanitize_keeps_valid.
+Print Assumptions C17_sanitize_renamed_shape.
+Print Assumptions C17_sanitize_idempotent.
+Print Assumptions C17_check_only_spec.
+Print Assumptions C17_place_round_trip.
+Print Assumptions C17_place_name_inj.
+Print Assumptions C17_dollar_test_unsafe.
